@@ -182,11 +182,34 @@ def upScript (kind : String) : String :=
   else if kind = "bad-sig" then run (a2.finish ltP (advMsg a2 (.adv 7) false)) none (.adv 7)
   else "bad-op"
 
+open Tmv.Sts in
+/-- `k` recorded sessions of node 0 with fresh peers, then `r` handshakes of node 0 answered by a
+replay of the peer side of session `t mod k`; session index = ephemeral scalar (`mkRun`) -/
+def multi (k r : Nat) : String :=
+  let honestSpecs : List (Nat × Point) :=
+    (List.range k).flatMap fun i => [(0, .honest (2 * i + 1)), (i + 1, .honest (2 * i))]
+  let replaySpecs : List (Nat × Point) :=
+    (List.range r).map fun t => (0, .honest (2 * (t % k) + 1))
+  let run := mkRun (honestSpecs ++ replaySpecs)
+  let d := if decide (EphDistinct run) then "distinct" else "reused"
+  let verdicts := (List.range r).map fun t =>
+    match run[2 * k + t]?, run[2 * (t % k) + 1]? with
+    | some s, some x =>
+      match s.finish ltP (x.authOut ltP) with
+      | .ok _ => "ok:replayed-session"
+      | v => showV s 0 v
+    | _, _ => "?"
+  s!"eph={d} replays=" ++ (if verdicts.isEmpty then "-" else ",".intercalate verdicts)
+
 def step (s : St) (toks : List String) : St × String :=
   match toks with
   | ["hs"] =>
     let s' : St := { up := true, ab := handshakeDir init.ab, ba := handshakeDir init.ba }
     (s', s!"ok a={s'.ab.wNonce},{s'.ba.r.nonce} b={s'.ba.wNonce},{s'.ab.r.nonce}")
+  | "multi" :: rest =>
+    match nat? rest "k", nat? rest "r" with
+    | some k, some r => if k < 1 ∨ k > 16 ∨ r > 64 then (s, "bad-op") else (s, multi k r)
+    | _, _ => (s, "bad-op")
   | "up" :: rest =>
     match kv rest "kind" with
     | some kind => (s, upScript kind)
